@@ -7,6 +7,7 @@
     decStep        one run of the MODEL's loop body as a `Rs.Flow` over the model's own loop state `DecM`;
     dec_loop_sim   ANY loop body that simulates `decStep` under a view `V` computes `decLoopIO` (fuels above the measure);
     decV6, decV5   the views of the loop variables (source, buffer, auth_data, [done,] sink, counter) as a `DecM`;
+    decV6s, decV5s the same for a body that assigns `auth_data` before the buffer;
     dec_body_core  one run of the generated body against `decStep` (the generated body is unfolded, never restated);
     decrypt_chunks_eq  the function itself: the views are tried in turn.
 -/
@@ -169,6 +170,14 @@ def decV5 (cs : Nat) (aad : Bytes) (strong : Prop) (head : Bool) : Src × Bytes 
     s = m.s ∧ k = m.k ∧ (head = true → ctr = m.ctr ∧ buffer.length = cs + 16 ∧ auth.length = aad.length + 8 ∧
       (strong → auth.take aad.length = aad))
 
+/-- `decV6` / `decV5` for a body that assigns `auth_data` before the body buffer (the translator orders the tuple by first
+    assignment inside the loop) -/
+def decV6s (cs : Nat) (aad : Bytes) (strong : Prop) (head : Bool) : Src × Bytes × Bytes × Bool × Snk × Nat → DecM → Prop
+  | (s, auth, buffer, done, k, ctr), m => decV6 cs aad strong head (s, buffer, auth, done, k, ctr) m
+
+def decV5s (cs : Nat) (aad : Bytes) (strong : Prop) (head : Bool) : Src × Bytes × Bytes × Snk × Nat → DecM → Prop
+  | (s, auth, buffer, k, ctr), m => decV5 cs aad strong head (s, buffer, auth, k, ctr) m
+
 theorem dec_read_err (e : RsIO.IoError) : decrypt.read_err e = Res.ioRead := by
   unfold decrypt.read_err; split <;> rfl
 
@@ -178,8 +187,8 @@ local macro "dec_tail" k:term "," s3:term "," pt:term : tactic => `(tactic|
   (rcases hw : Snk.writeAll (Src.pos $s3, Src.nreads $s3) _ $k $pt with ⟨_ | _, k1⟩
    · simp [RsIO.writeAll, hw, decrypt.write_err, DecFlowRel]
    · rcases hf : Snk.flush k1 with ⟨_ | _, k2⟩ <;>
-       simp [RsIO.writeAll, RsIO.flush, hw, hf, decrypt.write_err, DecFlowRel, decV6, decV5, take_aad, hbody, hb,
-         List.length_append, List.length_drop, List.length_take, hhl] <;> omega))
+       simp [RsIO.writeAll, RsIO.flush, hw, hf, decrypt.write_err, DecFlowRel, decV6, decV5, decV6s, decV5s, take_aad, take_aad1, hbody,
+         hb, List.length_append, List.length_drop, List.length_take, hhl] <;> omega))
 
 set_option hygiene false in
 /-- one run of the generated loop body against `decStep`; expects `s buffer auth k ctr` and `hb ha hs` in the context
@@ -194,12 +203,18 @@ local macro "dec_body_core" : tactic => `(tactic|
      have hl1 : (List.take (12 - 8) (List.drop 8 hdr)).length = 4 := by
        rw [List.length_take, List.length_drop, hhl]; rfl
      have hl2 : (List.drop 12 hdr).length = 4 := by rw [List.length_drop, hhl]
-     simp only [Except.mapError, dec_read_err]
-     -- `auth_data`: refilled completely, or only its last 8 bytes (the prefix being an invariant)
+     have hl3 : (List.drop 8 hdr).length = 8 := by rw [List.length_drop, hhl]
+     -- (header fields taken apart by `split_at`: `hdr[8..][4..]` is `hdr[12..]`)
+     simp only [Except.mapError, dec_read_err, List.drop_drop, Nat.reduceAdd]
+     -- `auth_data`: refilled completely, or only its last 8 bytes (the prefix being an invariant); the 8 bytes are written
+     -- by two copies of 4 or by one copy of 8
      first
        | simp (disch := first | assumption | (simp only [length_copyFromSlice, List.length_replicate])) only [auth_fill']
        | simp (disch := first | assumption | exact hs trivial | (simp only [length_copyFromSlice, List.length_replicate]))
            only [auth_fill2']
+       | simp (disch := first | assumption | (simp only [length_copyFromSlice, List.length_replicate])) only [auth_fill1']
+       | simp (disch := first | assumption | exact hs trivial | (simp only [length_copyFromSlice, List.length_replicate]))
+           only [auth_fill1s']
      -- a `copy_from_slice` between slices of equal lengths is its source
      try simp (disch := first | omega | (simp only [List.length_replicate, List.length_take, List.length_drop, hhl] <;> omega))
        only [copyFromSlice_eq]
@@ -212,6 +227,8 @@ local macro "dec_body_core" : tactic => `(tactic|
        · simp only [DecFlowRel]
        · obtain ⟨_, hbody, _⟩ := Src.readExact_some _ _ _ _ _ hr2
          simp only [List.take_left' hbody, show (12 - 8) = 4 from rfl]
+         -- both sides: the AAD followed by bytes 8..16 of the header
+         simp (disch := rfl) only [fields_join]
          rcases hdec : A.dec key ctr _ body with _ | pt
          · simp [Rs.okOr, errors.From_ChaPolyDecryptError_for_DecryptError, DecFlowRel]
          · simp only [Rs.okOr]
@@ -250,11 +267,12 @@ local macro "dec_via" V:term "," hbody:tactic "," hinit:tactic "," hfin:tactic :
      · exact hsim.elim))
 
 set_option hygiene false in
-local macro "dec_via6" strong:term : tactic => `(tactic|
-  dec_via (decV6 cs aad $strong),
-    (obtain ⟨s, buffer, auth, done, k, ctr⟩ := st
+/-- the views with a `done` flag: `$V` = `decV6` (tuple destructured by `$p` with the buffer first) or `decV6s` -/
+local macro "dec_via6" V:ident "," p:rcasesPat "," strong:term : tactic => `(tactic|
+  dec_via ($V cs aad $strong),
+    (rcases st with $p:rcasesPat
      obtain ⟨ms, mk, mctr⟩ := m
-     simp only [decV6] at hV
+     simp only [decV6s, decV6] at hV
      obtain ⟨rfl, rfl, hV⟩ := hV
      obtain ⟨rfl, rfl, hb, ha, hs⟩ := hV trivial
      dec_body_core),
@@ -265,16 +283,17 @@ local macro "dec_via6" strong:term : tactic => `(tactic|
          | exact hstrong.elim
          | exact auth_init_strong aad),
     (obtain ⟨a1, a2, a3, a4, a5, a6⟩ := st'
-     simp only [decV6] at hV'
+     simp only [decV6s, decV6] at hV'
      obtain ⟨rfl, rfl, _⟩ := hV'
      simp only [he]))
 
 set_option hygiene false in
-local macro "dec_via5" strong:term : tactic => `(tactic|
-  dec_via (decV5 cs aad $strong),
-    (obtain ⟨s, buffer, auth, k, ctr⟩ := st
+/-- the views without a `done` flag: `decV5` / `decV5s` -/
+local macro "dec_via5" V:ident "," p:rcasesPat "," strong:term : tactic => `(tactic|
+  dec_via ($V cs aad $strong),
+    (rcases st with $p:rcasesPat
      obtain ⟨ms, mk, mctr⟩ := m
-     simp only [decV5] at hV
+     simp only [decV5s, decV5] at hV
      obtain ⟨rfl, rfl, hV⟩ := hV
      obtain ⟨rfl, hb, ha, hs⟩ := hV trivial
      dec_body_core),
@@ -285,7 +304,7 @@ local macro "dec_via5" strong:term : tactic => `(tactic|
          | exact hstrong.elim
          | exact auth_init_strong aad),
     (obtain ⟨a1, a2, a3, a4, a5⟩ := st'
-     simp only [decV5] at hV'
+     simp only [decV5s, decV5] at hV'
      obtain ⟨rfl, rfl, _⟩ := hV'
      simp only [he]))
 
@@ -298,10 +317,14 @@ theorem decrypt_chunks_eq (A : Aead) (key aad : Bytes) (cs : Nat) (s : Src) (k :
   try simp only []
   generalize hx : Rs.loop _ fuel _ = x
   first
-    | dec_via6 False
-    | dec_via6 True
-    | dec_via5 False
-    | dec_via5 True
+    | dec_via6 decV6, ⟨s, buffer, auth, done, k, ctr⟩, False
+    | dec_via6 decV6, ⟨s, buffer, auth, done, k, ctr⟩, True
+    | dec_via5 decV5, ⟨s, buffer, auth, k, ctr⟩, False
+    | dec_via5 decV5, ⟨s, buffer, auth, k, ctr⟩, True
+    | dec_via6 decV6s, ⟨s, auth, buffer, done, k, ctr⟩, False
+    | dec_via6 decV6s, ⟨s, auth, buffer, done, k, ctr⟩, True
+    | dec_via5 decV5s, ⟨s, auth, buffer, k, ctr⟩, False
+    | dec_via5 decV5s, ⟨s, auth, buffer, k, ctr⟩, True
 
 /-! ### transfer of properties of the hand-written model to the translated code -/
 
